@@ -96,6 +96,10 @@ pub fn contract_eq(
     t2: &NickelValue,
     env2: &Environment,
 ) -> bool {
+    #[cfg(feature = "verif-hooks")]
+    if crate::verif_hooks::no_dedup() {
+        return false;
+    }
     contract_eq_bounded(&mut State::new(), t1, env1, t2, env2)
 }
 
